@@ -172,6 +172,9 @@ func (e *Enc) callWrites(fn *ssa.Function, cc *ssa.CallCommon, in ssa.Instructio
 				e.contractWrites(c, nil, w)
 				return
 			}
+			if externalIface(cc.Value.Type()) {
+				return
+			}
 		}
 		w.full = true
 		w.why = "dynamic call " + cc.String()
@@ -262,6 +265,7 @@ func (f *Frame) loopHeader(b *ssa.BasicBlock, preds []*ssa.BasicBlock, conds []s
 			entry[phi.Comment] = CVal{S: v, T: phi.Type()}
 		}
 		entry["$"+phi.Name()] = CVal{S: v, T: phi.Type()}
+		f.addIter(phi, v, entry)
 	}
 	if f.depth > 0 {
 		// loops in inlined bodies are not supported: havoc everything
@@ -311,6 +315,11 @@ func (f *Frame) loopHeader(b *ssa.BasicBlock, preds []*ssa.BasicBlock, conds []s
 			cur[phi.Comment] = CVal{S: v, T: phi.Type()}
 		}
 		cur["$"+phi.Name()] = CVal{S: v, T: phi.Type()}
+		f.addIter(phi, v, cur)
+		if phi.Comment == "rangeindex" {
+			// range loops: the hidden index starts at -1 and only grows (inductive by construction: next = index+1)
+			e.assume(f.reach, e.idxLe(e.idxLit("-1"), v))
+		}
 	}
 	// assume invariants
 	for _, inv := range invs {
@@ -328,6 +337,13 @@ func (f *Frame) loopHeader(b *ssa.BasicBlock, preds []*ssa.BasicBlock, conds []s
 		}
 	}
 	f.loopInfo(b, w, wnames)
+}
+
+// addIter defines the pseudo variable iter (number of completed iterations) for range loops.
+func (f *Frame) addIter(phi *ssa.Phi, v string, m map[string]CVal) {
+	if phi.Comment == "rangeindex" {
+		m["iter"] = CVal{S: f.e.idxAdd(v, f.e.idxLit("1")), T: phi.Type()}
+	}
 }
 
 type loopMeta struct {
@@ -388,6 +404,7 @@ func (f *Frame) backEdge(from, to *ssa.BasicBlock, cond string) {
 			vals[phi.Comment] = CVal{S: v, T: phi.Type()}
 		}
 		vals["$"+phi.Name()] = CVal{S: v, T: phi.Type()}
+		f.addIter(phi, v, vals)
 	}
 	for _, inv := range f.invariantsFor(ord) {
 		env := f.invEnv(to, vals, f.st)
